@@ -30,7 +30,7 @@ META = {
     "C03": dict(
         text="PathToIndexLoose/PathToIndex compared with the recursive pre-order definition (two independent oracles: arithmetic walk and literal recursion) on generated (mask, node) pairs of every height 0..30 and exhaustively on all masks of height <= 9 (thorough <= 12; debug <= 11) x all nodes, which gives the order-preserving bijection outright on that sub-domain; everything is run twice, in the release build and with -tags debug where any contract panic on these valid inputs is a failure.",
         note="Trusted: model.Tree (self-tested: the two oracles agree on all masks of height <= 10), toolchain, rapid. Heights above the grid bound are sampled, not enumerated.",
-        technique="property-based differential testing vs recursive definition, exhaustive small-height grid, two build configurations",
+        technique="property-based differential testing vs recursive definition, exhaustive small-height grid, coverage-guided fuzzing of the same generator (thorough), two build configurations",
         design_ref="DESIGN.md 4/C03"),
     "C04": dict(
         text="AllPaths compared for exact slice equality with an enumerate-filter-sort oracle over generated masks (height 0..30) and (from,to) pairs on and off real paths, exhaustively for all masks of height <= 5 (thorough <= 7) x all (from,to) drawn from every path and every path+-1; Decode compared with a pre-order walk using its own index on bitmaps of every shape (short, long, garbage beyond bitmapSize), exhaustively for height <= 3, plus the encode-through-PathToIndex round trip.",
@@ -45,12 +45,12 @@ META = {
     "C10": dict(
         text="NewPath/PathLen/PathHeight/PathBits/PathMask/PathStr compared with a constructive definition for every (h<=16,l,prefix) and for generated nodes up to height 32; the order claim is decided for all pairs of heights <= 16 by checking that the pre-order walk of the full tree yields strictly increasing words, for all pairs explicitly at heights <= 6, and for generated correlated pairs up to height 32 against a pre-order comparator.",
         note="Trusted: model.PathWord / PreorderLess / Walk (self-tested against each other), toolchain, rapid.",
-        technique="exhaustive small-height grid + property-based differential testing vs constructive definition and pre-order comparator",
+        technique="exhaustive small-height grid + property-based differential testing vs constructive definition and pre-order comparator + coverage-guided fuzzing (thorough)",
         design_ref="DESIGN.md 4/C10"),
     "C06": dict(
         text="Round-trip and exact-bytes testing of Marshal/Unmarshal/ReadHeader/Size/HeaderSize over generated streams of frames (five message kinds incl. legacy Marshal/Unmarshal messages, versioned forms, versions of 0..16 bytes with interior NULs, bodies from 0 bytes to 64 KiB) written to a buffer or an AtToWriter and read back through six reader chunkings; the expected wire image comes from a hand-written encoder, and a counting reader shows that each call consumes exactly one frame.",
         note="Trusted: the hand-written wire/body encoder in harness/pbm (self-tested against the protobuf library on generated messages), the chunking readers, toolchain, rapid. Messages that fail to marshal and versions longer than 16 bytes or ending in NUL are outside the statement.",
-        technique="property-based round-trip + differential testing vs hand-written wire encoder, stream model with consumption accounting",
+        technique="property-based round-trip + differential testing vs hand-written wire encoder, stream model with consumption accounting + coverage-guided fuzzing of the stream generator (thorough)",
         design_ref="DESIGN.md 4/C06"),
     "C07": dict(
         text="Fault enumeration: for each generated frame every cut point, every writer failure point and every reader error point is enumerated (all of them for frames up to 4096 bytes, boundary + keyed samples beyond) and the returned count, error class and the bytes that reached the sink are compared with an error-class model; corrupt headers (header-size / body-size fields set to hostile constants up to 2^64-1) and arbitrary bytes go into Unmarshal/ReadHeader with the running case kept on disk so that a process death (out of memory) is attributed; native fuzzing with a structured decoder in the thorough tier.",
@@ -65,7 +65,7 @@ META = {
     "C09": dict(
         text="New/Len/Cmp/CmpUpto/StrCmpUpto compared with []bool bit strings under lexicographic prefix-first order on generated, deliberately correlated pairs (flips around the shorter end, prefix relations, flips in masked-off bits, payloads across the 8-byte fast path), exhaustively for all encodings of strings of length <= 2 over {00,01,7f,80,ff}; StrCmpUpto is called from four call contexts and its string argument is compared before/after.",
         note="Trusted: []bool oracle, toolchain, rapid. Ranges outside the string are not generated; StrCmpUpto's unsafe cast is only judged by observable results/panics. Random sources stop at 64 bytes; beyond that only the maximum string (2^28 bytes, fixed sparse description) is encoded, at its top.",
-        technique="property-based differential testing vs bit-string model order + exhaustive small-alphabet grid + coverage-guided fuzzing",
+        technique="property-based differential testing vs bit-string model order + exhaustive small-alphabet grid + coverage-guided fuzzing; thorough repeats grid and random search under the second installed toolchain (go1.26.8)",
         design_ref="DESIGN.md 4/C09"),
     "C11": dict(
         text="FromStr32/PathOf/PathStr compared with bit-by-bit extraction on generated (string, start, width) triples including starts at and far beyond the end, and on a complete grid over (start mod 8, width 0..32, bytes remaining 0..6); PathsOf compared with an own map + drop-equal-to-predecessor loop on key lists with adjacent and non-adjacent repeats, including the all-ones path at height 32 (the defect found and fixed).",
@@ -90,7 +90,7 @@ META = {
     "C15": dict(
         text="Stateful model-based testing: histories of Set/Compact (with macro steps that fill words in any order and cross the 1024-word reclaim threshold) generated state-dependently from a model, from offsets up to 2^40; after every step the Offset invariants, the first-word invariant and Get/Get1 over the whole stored window (plus 130 bits below Offset) are compared with the model, and Compact must change no Get result.",
         note="Trusted: the o + set-of-indexes model, toolchain, rapid. Positions at or beyond the end of the stored words are not probed (outside the statement). One fixed history grows the stored tail beyond 2^31 bits (thorough: 2^32); longer tails are not explored.",
-        technique="stateful model-based property testing (generated operation histories, invariants after every step)",
+        technique="stateful model-based property testing (generated operation histories, invariants after every step) + coverage-guided fuzzing of the history generator (thorough)",
         design_ref="DESIGN.md 4/C15"),
     "C16": dict(
         text="FirstDiffBits compared with a bit loop, CountPrefixes compared with the set of truncated bit strings (bits + length) for all sub-ranges of small key sets (sampled for large ones) and several m, on key sets built from random prefix trees that cross the 8/16-byte chunk boundaries, contain NUL-suffix families, the empty key and > 128-byte common prefixes; complete grid over all subsets (size 2..5) of a 14-key pool.",
@@ -105,12 +105,12 @@ META = {
     "C18": dict(
         text="Stateful model-based testing with fault injection: histories of Write/WriteAt/Seek/Size on sections (incl. n=0 and a 2^32+5 start) and AtToWriter over a recording WriterAt with capacity and one-shot faults; after every step return values, every underlying call (position, length), the memory image, the cursor (observed through Seek(0,SeekCurrent)) and Size are compared with a reference model.",
         note="Trusted: the cursor/section reference model and recorder, toolchain, rapid. Only conformant underlying writers; the identity of the error of a rejected Seek / negative WriteAt offset is not asserted.",
-        technique="stateful model-based property testing with injected writer faults (reference model of cursor and section)",
+        technique="stateful model-based property testing with injected writer faults (reference model of cursor and section) + coverage-guided fuzzing of the history generator (thorough)",
         design_ref="DESIGN.md 4/C18"),
     "C20": dict(
         text="size.Of and the first line of size.Stat compared with a size computed compositionally by the generator itself (oracle by construction) on random acyclic values built with reflect: every scalar kind incl. uint/uintptr, strings, arrays, nil/empty/non-empty slices and maps with many key kinds, pointers, shared pointees, interface fields, generated and hand-declared structs with unexported fields, nested to depth 4; grid over every kind one level inside every container. Found and fixed the uint/uintptr panic.",
         note="Trusted: the fixed width/header table for 64-bit platforms, the reflect-based builder, toolchain, rapid. Only the kinds the statement lists (no chan/func/unsafe.Pointer), acyclic values.",
-        technique="property-based differential testing with an oracle-by-construction (generator returns value and expected size) + kind x container grid",
+        technique="property-based differential testing with an oracle-by-construction (generator returns value and expected size) + kind x container grid + coverage-guided fuzzing (thorough); thorough repeats the search under the second installed toolchain (go1.26.8)",
         design_ref="DESIGN.md 4/C20"),
     "C19": dict(
         text="Four generated checks over 34 call kinds that cover the listed functions: (1) every slice/string/[]string argument, including the prebuilt indexes, lives inside canary-guarded memory and is compared with a snapshot after the call; (2) all package tables are compared with independently computed values, with start-up snapshots of the unexported tables (verif hook) and behaviourally through the API; (3) each call is repeated after unrelated calls and with relocated arguments and must return the same result; (4) shared workloads are run sequentially and then by 2/8/32 goroutines in keyed permutations, results compared, in a plain binary and in one built with the Go race detector that halts on the first report. Schedules are sampled, not enumerated: a defect that needs a particular interleaving and leaves no unsynchronised conflicting access is out of reach.",
